@@ -41,7 +41,12 @@ class QR(BaseEstimator):
         -------
 
         """
-        _, _, self.pivots_ = qr(basis_matrix.conj().T, pivoting=True, **optimizer_kws)
+        # Factor a copy: conj() of a real array is the array itself, so with the
+        # scipy keyword overwrite_a=True LAPACK would destroy the caller's basis
+        # matrix (for SSPOR the model's stored basis).
+        _, _, self.pivots_ = qr(
+            basis_matrix.conj().T.copy(), pivoting=True, **optimizer_kws
+        )
 
         return self
 
